@@ -14,6 +14,7 @@ import Ops.EncBuf
 import Ops.C0506
 import Ops.KdTree
 import Ops.KdEnc
+import Ops.Robust
 /- Line-protocol driver of the executable model: one op per line in, one line out. -/
 open Draco
 
@@ -33,7 +34,8 @@ def allOps : List (String × (List String → String)) := List.flatten [
   Ops.c0506Ops,
   Ops.kdTreeOps,
   Ops.kdEncOps,
-  Ops.e2ePropsOps]
+  Ops.e2ePropsOps,
+  Ops.robustOps]
 
 def dispatch (line : String) : String :=
   match (line.trimAscii.toString.splitOn " ").filter (· ≠ "") with
